@@ -104,6 +104,14 @@ def check(ctx):
         ctx.require(R3, not other, c.where(), "only representation-preserving conversions between download and write (%s)" % other, ["request_certificate", "cert-transformed"])
         extra = sorted(l for l in sl.leaves if l.startswith("call:") and "get_certificate" not in l)
         ctx.require(R3, not extra, c.where(), "nothing else flows into the certificate bytes (%s)" % extra, ["request_certificate", "cert-mixed"])
+        # what is written is the very download that was VALIDATED (parsed and matched against the key), not another response
+        src_bbs = {x.bb for x in src}
+        for v_ in rc.calls_to("acme_common::crypto::openssl_certificate::X509Certificate::from_pem", "acme_common::crypto::openssl_certificate::X509Certificate::from_pem_native"):
+            vsl = arg_origins(v_, 0)
+            vsrc = {x.bb for x in vsl.calls if x.is_or_polls("acmed::acme_proto::http::get_certificate")}
+            if vsrc and v_.bb in rc.live_blocks() and c.bb in rc.reachable_after(v_.bb):
+                ctx.require(R3, vsrc == src_bbs, c.where(), "the bytes written come from the same download that was parsed and checked (validated: get_certificate @bb%s, written: @bb%s)" % (sorted(vsrc), sorted(src_bbs)),
+                            ["request_certificate", "validated-is-written"])
     gc = prog.async_body("acmed::acme_proto::http::get_certificate")
     okb2, errb2, fwd2 = result_return_kinds(gc)
     from ..util import agg_assigns
@@ -154,11 +162,19 @@ def check(ctx):
     from .storage_common import file_identity_rules
     file_identity_rules(ctx, R5)
 
+    writers_rule(ctx)
+
+
+def writers_rule(ctx):
+    """shared with C03 (nothing but write_file creates, replaces, renames or removes the installed key / certificate files)"""
+    prog = ctx.prog
     R4 = ctx.rule("R4", "files are opened for writing only in storage::write_file (hook stdout/stderr and the pid file excepted)")
     allowed = {"acmed::storage::write_file::{closure#0}": "storage files", "acmed::hooks::call_single::{closure#0}": "hook stdout/stderr redirection",
                "acme_common::write_pid_file": "pid file"}
     sites = prog.all_calls_to(OO + "::open", STD_OO + "::open", "tokio::fs::file::File::create", "std::fs::File::create", "std::fs::write", "tokio::fs::write::write",
-                              "std::fs::File::create_new", "std::fs::copy", "std::fs::rename", "tokio::fs::rename::rename", crates=("acmed", "acme_common"), include_derive=True)
+                              "std::fs::File::create_new", "std::fs::copy", "std::fs::rename", "tokio::fs::rename::rename", "std::fs::remove_file", "tokio::fs::remove_file::remove_file",
+                              "std::fs::hard_link", "std::os::unix::fs::symlink", crates=("acmed",), include_derive=True) + \
+        prog.all_calls_to(OO + "::open", STD_OO + "::open", "std::fs::File::create", "std::fs::write", crates=("acme_common",), include_derive=True)
     ctx.floor(R4, "file-creation sites in acmed/acme_common", len(sites), 3)
     allowed_fns = {k.split("::{closure")[0] for k in allowed}
     for c in sites:
